@@ -317,7 +317,9 @@ pub async fn run_case(client: &Client, raw: &RawPeer, seed: u64, i: u64, cfg: &C
     let mut r = Rng::new(seed.wrapping_mul(31337).wrapping_add(i) ^ 0x03);
     let topic = format!("/c03ns{}/t{:03}", seed % 100_000, i);
     let _ = writeln!(out, "case c03 {} {}", seed, i);
+    crate::util::set_case_header(&format!("case c03 {} {}", seed, i));
     let _ = writeln!(out, "{}", cfg.text());
+    crate::util::set_case_header(&format!("case c03 {} {}\n{}", seed, i, cfg.text()));
     let res = match cfg.codec.as_str() {
         "string" => {
             let items: Vec<String> = (0..cfg.count)
